@@ -169,57 +169,68 @@ def d3(cx: Cx, ob: Ob) -> None:
         if not conds:
             ob.violate(fn.qualname, where(fn, line), "get_subconverter does not filter records", detail="no-filter")
             continue
+        import itertools
+
+        from ..rules import formula_atoms, formula_eval
+
         fields = set()
-        # canonical polarity: `not X` as (X, False); a true conjunction as its conjuncts
-        norm: list = []
+        # the selection condition as one boolean formula over its atomic tests
+        lits = [c if pol else ("not", c) for c, pol in conds]
+        formula = lits[0] if len(lits) == 1 else ("and", tuple(lits))
+        atoms = formula_atoms(formula)
 
-        def _add(c_, p_):
-            while op(c_) in ("not", "truth"):
-                if op(c_) == "not":
-                    p_ = not p_
-                c_ = c_[1]
-            if op(c_) == "and" and p_:
-                for y_ in c_[1]:
-                    _add(y_, True)
-            elif op(c_) == "or" and not p_:
-                for y_ in c_[1]:
-                    _add(y_, False)
-            else:
-                norm.append((c_, p_))
-
-        for cnd, pol in conds:
-            _add(cnd, pol)
-        conds = norm
-        for cnd, pol in conds:
-            recognised = False
-            for x in subterms(cnd):
-                if op(x) == "cmp" and x[1] == "in" and pol is True:
-                    for r, f in prov.fields(x[2]):
-                        if r == tgt:
-                            fields.add(f)
-                            recognised = True
-                if op(x) == "cmp" and x[1] == "in" and pol is False and any(y == tgt for y in subterms(x)):
-                    ob.undecide("negative membership test in get_subconverter")
+        def classify(a):
+            """(record fields the atom compares with the requested set, polarity of the atom that means 'requested')."""
+            got, sense = set(), True
+            for x in subterms(a):
+                if op(x) == "cmp" and x[1] == "in":
+                    got |= {f for r, f in prov.fields(x[2]) if r == tgt}
                 inter_ops = None
-                if op(x) == "call" and op(x[1]) == "attr" and x[1][2] == "intersection" and len(x[2]) == 1 and pol is True:
+                if op(x) == "call" and op(x[1]) == "attr" and x[1][2] in ("intersection", "isdisjoint") and len(x[2]) == 1:
                     inter_ops = [x[1][1], x[2][0]]
-                if op(x) == "call" and op(x[1]) == "attr" and x[1][2] == "isdisjoint" and len(x[2]) == 1 and pol is False:
-                    inter_ops = [x[1][1], x[2][0]]
-                if op(x) == "bin" and x[1] == "&" and pol is True:
+                    if x[1][2] == "isdisjoint":
+                        sense = False
+                if op(x) == "bin" and x[1] == "&":
                     inter_ops = [x[2], x[3]]
                 if inter_ops:
                     for o_ in inter_ops:
-                        for r, f in _container_fields(prov, _unset(o_)):
-                            if r == tgt:
-                                fields.add(f)
-                                recognised = True
-                if op(x) == "call" and op(x[1]) == "attr" and x[1][2] == "isdisjoint" and pol is True and any(y == tgt for y in subterms(x)):
-                    ob.violate(fn.qualname, where(fn, line), "get_subconverter keeps the records whose names are DISJOINT from the requested prefixes", detail="inverted")
-                    recognised = True
-            if any(op(x) == "call" and callee_name(x) == "all" for x in subterms(cnd)) and pol is True:
+                        got |= {f for r, f in _container_fields(prov, _unset(o_)) if r == tgt}
+            return got, sense
+
+        info = {a: classify(a) for a in atoms}
+        for a in atoms:
+            if any(op(x) == "call" and callee_name(x) == "all" for x in subterms(a)) and info[a][0]:
                 ob.violate(fn.qualname, where(fn, line), "get_subconverter requires ALL names of a record to be requested, not any", detail="all-vs-any")
-            if not recognised and any(y == tgt for y in subterms(cnd)):
-                ob.undecide(f"selection condition `{show(cnd)[:60]}` of get_subconverter not recognised")
+            if not info[a][0] and any(y == tgt for y in subterms(a)):
+                ob.undecide(f"selection condition `{show(a)[:60]}` of get_subconverter not recognised")
+        named = [a for a in atoms if info[a][0]]
+        other = [a for a in atoms if not info[a][0]]
+        if len(atoms) > 10:
+            ob.undecide("selection condition of get_subconverter has too many tests")
+            continue
+
+        def kept(match: dict):
+            """Is the record kept when exactly the atoms in ``match`` report a requested name?  None if that depends on an unrelated test."""
+            vals = set()
+            for ov in itertools.product((True, False), repeat=len(other)):
+                asg = dict(zip(other, ov))
+                for a in named:
+                    asg[a] = (info[a][1] if match.get(a) else not info[a][1])
+                vals.add(formula_eval(formula, asg))
+            return None if len(vals) != 1 else next(iter(vals))
+
+        none_kept = kept({})
+        if none_kept is None:
+            ob.undecide("get_subconverter: whether a record is kept depends on a test unrelated to its names")
+        for a in named:
+            k = kept({a: True})
+            if k is True and none_kept is not True:
+                fields |= info[a][0]
+            elif k is False and none_kept is True:
+                ob.violate(fn.qualname, where(fn, line), "get_subconverter keeps the records whose names are DISJOINT from the requested prefixes", detail="inverted")
+                fields |= info[a][0]
+        if none_kept is True and not any(kept({a: True}) is False for a in named):
+            ob.violate(fn.qualname, where(fn, line), "get_subconverter keeps records none of whose names is requested", detail="no-filter")
         missing = CURIE_SIDE - fields
         if missing and not ob.undecided:
             ob.violate(fn.qualname, where(fn, line), f"get_subconverter does not test {sorted(missing)} against the requested prefixes: records requested by synonym are dropped", detail="cover:" + "+".join(sorted(missing)))
